@@ -418,3 +418,26 @@ Proof.
     destruct b; try contradiction; rewrite P; reflexivity.
   - rewrite parse_render_uint. reflexivity.
 Qed.
+
+(* ---------- digit grouping only inserts separators ---------- *)
+
+Definition not_sep (b : byte) : bool := negb (beq b x2c).
+
+Lemma filter_group_rev ds : forall n, filter not_sep (group_rev ds n) = filter not_sep ds.
+Proof.
+  induction ds as [|d r IH]; intros n; [reflexivity|].
+  cbn [group_rev].
+  destruct n as [|[|[|[|n]]]]; cbn [filter]; rewrite IH; reflexivity.
+Qed.
+
+Lemma filter_rev {A} (p : A -> bool) l : filter p (rev l) = rev (filter p l).
+Proof.
+  induction l as [|x l IH]; [reflexivity|]. simpl. rewrite filter_app, IH. simpl.
+  destruct (p x); simpl; [reflexivity | rewrite app_nil_r; reflexivity].
+Qed.
+
+(* removing the separators from a grouped numeral gives the digits back *)
+Theorem group3_ungroup digits : filter not_sep (group3 digits) = filter not_sep digits.
+Proof.
+  unfold group3. rewrite filter_rev, filter_group_rev, <- filter_rev, rev_involutive. reflexivity.
+Qed.
